@@ -16,6 +16,10 @@ def densitySupported (totalSat : Rat) : Bool := (decide (totalSat > (0 : Rat)))
 
 def densityValue (totalSat cost : Rat) : Rat := (totalSat / cost)
 
+def passLoop : (List Nat) → Rat → List (Nat × Rat) → ((List Nat) × Rat)
+  | sel, remaining, [] => (sel, remaining)
+  | sel, remaining, x :: xs => (if (decide (x.2 ≤ remaining)) then (passLoop ((sel ++ [x.1])) ((remaining - x.2)) xs) else (passLoop sel remaining xs))
+
 def passFits (cost remaining : Rat) : Bool := (decide (cost ≤ remaining))
 
 def passRemaining (remaining cost : Rat) : Rat := (remaining - cost)
